@@ -251,6 +251,10 @@ structure AbsInv (cfg : Cfg) (I : Abs → Prop) : Prop where
   move : ∀ {K : Kind → Bool} {a b : Abs}, I a → Move cfg K a b → I b
   fresh : ∀ e n o w p f k, I (freshAbs cfg e n o w p f k)
   drain : ∀ a, I a → I { a with kinds := [], aborts := 0, slowOk := true, evOk := true }
+  /-- the invariant does not look at the event bookkeeping … -/
+  side : ∀ a n b1 b2, I a → I { a with aborts := n, slowOk := b1, evOk := b2 }
+  /-- … and survives the queue being emptied (the driver wrote it to the socket) -/
+  dropKinds : ∀ a b1, I a → I { a with kinds := [], slowOk := b1 }
 
 theorem AbsInv.moves {cfg : Cfg} {I : Abs → Prop} (inv : AbsInv cfg I) {K : Kind → Bool} {a b : Abs}
     (h : I a) (m : Moves cfg K a b) : I b := by
@@ -273,7 +277,7 @@ theorem AbsInv.reach {cfg : Cfg} {I : Abs → Prop} (inv : AbsInv cfg I) {base s
       rw [α_drain, α_ircReset]; exact inv.drain _ (inv.fresh _ _ _ _ _ _ _)
 
 theorem absInv_end (cfg : Cfg) : AbsInv cfg EndInv :=
-  ⟨fun h m => endInv_move h m, fun _ _ _ _ _ _ _ => .inl rfl, fun _ h => h⟩
+  ⟨fun h m => endInv_move h m, fun _ _ _ _ _ _ _ => .inl rfl, fun _ h => h, fun _ _ _ _ h => h, fun _ _ h => h⟩
 
 theorem absInv_req (cfg : Cfg) : AbsInv cfg (ReqInv cfg) :=
   ⟨fun h m => reqInv_move h m, fun _ _ _ _ _ _ _ _ hc => by
@@ -281,10 +285,11 @@ theorem absInv_req (cfg : Cfg) : AbsInv cfg (ReqInv cfg) :=
       · simp [freshAbs, pastNegotiation] at hc
       · simp [freshAbs] at hc
       · simp [freshAbs] at hc,
-   fun _ h => h⟩
+   fun _ h => h, fun _ _ _ _ h => h, fun _ _ h => h⟩
 
 theorem absInv_sasl (cfg : Cfg) : AbsInv cfg SaslQ := by
-  refine ⟨fun h m => saslQ_move h m, fun e n o w p f k => ?_, fun a h => ⟨h.1, h.2.1, by simp, h.2.2.2⟩⟩
+  refine ⟨fun h m => saslQ_move h m, fun e n o w p f k => ?_, fun a h => ⟨h.1, h.2.1, by simp, h.2.2.2⟩,
+    fun a _ _ _ h => h, fun a _ h => ⟨h.1, h.2.1, by simp, h.2.2.2⟩⟩
   refine ⟨by simp [freshAbs], by simp [freshAbs, isSaslState], ?_, by simp [freshAbs]⟩
   intro k hk hs
   rcases connectKinds_mem hk with rfl | rfl <;> simp [Kind.sasl] at hs
@@ -326,5 +331,63 @@ theorem capEnd_origin {cfg : Cfg} {K : Kind → Bool} {a b : Abs} (m : Moves cfg
         rcases u1 hu with h | h <;> rw [hf] at h <;> cases h
       revert r1 hne
       cases a.fsm <;> simp [rank]
+
+/-! ### real-driver histories: SocketDriver(irc), then any number of SocketDriver.run() -/
+
+/-- the states of a real-driver history: `Irc()`, `SocketDriver(irc)`, then `run()`s with arbitrary clock
+values, due / not-due reconnects and recv() chunks -/
+inductive DReach (cfg : Cfg) (base : St) : St → Prop
+  | start : DReach cfg base (drvStart cfg (initSt cfg base))
+  | run {s : St} (now : Nat) (due : Bool) (lines : List Msg) : DReach cfg base s → DReach cfg base (drvRun cfg now due lines s)
+
+theorem α_flush (s : St) : α (flush s) = α s ∨ α (flush s) = { α s with kinds := [], slowOk := true } := by
+  unfold flush
+  split
+  · right; simp [α]
+  · left; rfl
+
+theorem AbsInv.flush {cfg : Cfg} {I : Abs → Prop} (inv : AbsInv cfg I) {s : St} (h : I (α s)) : I (α (C08.flush s)) := by
+  rcases α_flush s with e | e
+  · rw [e]; exact h
+  · rw [e]; exact inv.dropKinds _ _ h
+
+theorem AbsInv.feedLines {cfg : Cfg} {I : Abs → Prop} (inv : AbsInv cfg I) (lines : List Msg) {s : St} (h : I (α s)) :
+    I (α (C08.feedLines cfg lines s)) := by
+  induction lines generalizing s with
+  | nil => exact h
+  | cons m ms ih =>
+    unfold C08.feedLines
+    simp only
+    split
+    · exact inv.moves h (ref_feedMsg m s)
+    · exact ih (inv.moves h (ref_feedMsg m s))
+
+theorem AbsInv.dreach {cfg : Cfg} {I : Abs → Prop} (inv : AbsInv cfg I) (hr : cfg.realDriver = true) {base s : St}
+    (r : DReach cfg base s) : I (α s) := by
+  induction r with
+  | start =>
+    unfold drvStart
+    apply inv.flush
+    have h0 : I (α (initSt cfg base)) := by rw [α_initSt]; exact inv.fresh _ _ _ _ _ _ _
+    have h1 : I (α ({ initSt cfg base with drv := { (initSt cfg base).drv with attempt := (initSt cfg base).drv.attempt + 1, scheduled := false }, ev := [], wire := [] } : St)) := by
+      have := inv.side _ 0 (α (initSt cfg base)).slowOk true h0
+      simpa [α] using this
+    exact inv.moves (K := fun _ => true) h1 (ref_drvConnect none _ hr rfl)
+  | run now due lines r0 ih =>
+    rename_i s0
+    have h0 : I (α ({ s0 with now := now, ev := [], wire := [] } : St)) := by
+      have := inv.side _ 0 (α s0).slowOk true ih
+      simpa [α] using this
+    have h1 : I (α (drvDue cfg due { s0 with now := now, ev := [], wire := [] })) := by
+      unfold drvDue
+      split
+      · exact inv.moves (K := fun _ => true) (inv.moves (K := fun _ => true) h0 (ref_event _ _ rfl))
+          (ref_realReconnect false none _ hr (fun _ => rfl))
+      · exact h0
+    unfold drvRun
+    simp only
+    split
+    · exact inv.flush (inv.feedLines lines (inv.flush h1))
+    · exact h1
 
 end C08
